@@ -37,8 +37,8 @@ class AnalysisError(Exception):
 
 def is_pure_getter(callee):
     """Calls that are value-numbered: same receiver provenance => same value."""
-    if re.search(r"^pnet::packet::\w+(::\w+)*::\w*Packet::<'a>::get_\w+$", callee):
-        return True
+    if re.search(r"^pnet::packet::\w+(::\w+)*::\w*Packet::<'a>::(get_\w+|new)$", callee):
+        return True     # getters and the (pure) view constructors
     if re.search(r"^<pnet::packet::.*Packet<'a> as pnet::packet::Packet>::(payload|packet)$", callee):
         return True
     if callee.endswith('::minimum_packet_size') or callee.endswith('::packet_size'):
